@@ -93,6 +93,10 @@ pub fn judge_graph(g: &[GNode], sm: &SchemaMut, origin: &str, sp: ggen::NameSpel
 		out.push(Violation { class: class.to_owned(), what: format!("graph {desc} ({origin}): {what}"), replay: json!({"check": "C09", "kind": "graph", "graph": ggen::to_json(g), "origin": origin, "names": sp.label()}) });
 	};
 	let expected: RSchema = ggen::unfold(g);
+	// the public read accessors agree with nodes()
+	if let Err(e) = ggen::accessors_agree(sm, g) {
+		viol("accessor-differs", e);
+	}
 	cover.impl_runs += 1;
 	let text = match guarded(|| serde_json::to_string(sm).map_err(|e| e.to_string())) {
 		Out::Ok(t) => t,
@@ -202,6 +206,61 @@ pub fn judge_graph(g: &[GNode], sm: &SchemaMut, origin: &str, sp: ggen::NameSpel
 	cover.outcomes.insert(hash64(&(f.named, f.refs.min(3), f.ns_transitions.min(3), f.recursive, text.contains("\"."), text.contains("\"namespace\":\"\""))));
 	if cover.samples.len() < 1 && f.recursive && f.ns_transitions >= 2 && text.contains("\".") {
 		cover.sample(json!({"part": "b", "graph": desc, "regenerated": text}));
+	}
+}
+
+/// A union node carrying a logical type cannot be written as JSON (a union is an array):
+/// rendering and freeze may return Err, or Ok with a document that denotes the graph without
+/// that annotation — never a panic, never a document denoting something else.
+fn judge_union_logical(g: &[GNode], cover: &mut Cover, out: &mut Vec<Violation>) {
+	cover.evaluations += 1;
+	cover.impl_runs += 2;
+	cover.states += 1;
+	cover.transitions += 1;
+	cover.count("union_with_logical_type_graphs", 1);
+	let stripped: Vec<GNode> = g.iter().map(|n| if matches!(n.kind, GKind::Union(_)) { GNode::plain(n.kind.clone()) } else { n.clone() }).collect();
+	let expected = ggen::unfold(&stripped);
+	let want_fp = fingerprint_le(pcf(&expected).as_bytes());
+	let sm = SchemaMut::from_nodes(ggen::to_crate(g));
+	let desc = ggen::describe(g);
+	let mut viol = |class: &str, what: String| {
+		out.push(Violation { class: class.to_owned(), what: format!("graph {desc} (built with from_nodes; a union node carries a logical type): {what}"), replay: json!({"check": "C09", "kind": "union-logical", "graph": ggen::to_json(g)}) });
+	};
+	let denotes = |text: &str| matches!(resolve_text(text, &ResolveCfg { allow_forward: false, allow_leading_dot: true }), Ok(back) if back == expected);
+	match guarded(|| serde_json::to_string(&sm).map_err(|e| e.to_string())) {
+		Out::Err(_) => cover.count("union_with_logical_type_render_err", 1),
+		Out::Ok(text) => {
+			if !denotes(&text) {
+				viol("union-logical-denotes-other", format!("serde_json::to_string returned {text}, which does not denote the graph (without the annotation: {})", pcf(&expected)));
+			}
+		}
+		Out::Panic(e) => viol("union-logical-panic", format!("serde_json::to_string panicked: {e}")),
+	}
+	match guarded(|| sm.clone().freeze().map(|s| (s.json().to_owned(), *s.rabin_fingerprint())).map_err(|e| e.to_string())) {
+		Out::Err(_) => cover.count("union_with_logical_type_freeze_err", 1),
+		Out::Ok((text, fp)) => {
+			if !denotes(&text) {
+				viol("union-logical-denotes-other", format!("freeze().json() = {text}, which does not denote the graph (without the annotation: {})", pcf(&expected)));
+			} else if fp != want_fp {
+				viol("fingerprint-differs", format!("freeze().rabin_fingerprint() = {fp:02x?}, reference {want_fp:02x?} for {}", pcf(&expected)));
+			}
+		}
+		Out::Panic(e) => viol("union-logical-panic", format!("freeze panicked: {e}")),
+	}
+}
+
+/// Primitive sweep and unions with a logical type (explicit lists, all acyclic or cyclic through
+/// a named node only).
+fn run_sweeps(cover: &mut Cover, out: &mut Vec<Violation>) {
+	for (label, g) in ggen::primitive_sweep() {
+		let sm = SchemaMut::from_nodes(ggen::to_crate(&g));
+		cover.states += 1;
+		cover.transitions += 1;
+		cover.count("primitive_sweep_graphs", 1);
+		judge_graph(&g, &sm, &format!("built with from_nodes; primitive sweep: {label}"), ggen::NameSpell::Plain, cover, out);
+	}
+	for g in ggen::union_with_logical() {
+		judge_union_logical(&g, cover, out);
 	}
 }
 
@@ -786,7 +845,7 @@ pub fn run(rep: &mut Report) {
 	let edit_max_named = if thorough { 3 } else { 2 };
 	let hist_depth = if thorough { 5 } else { 4 };
 	rep.rule = format!(
-		"SAE. (a) parsed documents: C07's valid ASTs and forward-reference variants; spellings: 'every site takes option k' (k=0..3) under all 18 document-level configurations (attribute order x extra attributes incl. unknown keys with nested JSON x whitespace) for ASTs with <= 2 named types (larger ASTs: k=0..3 plain + k=1 under the 17 other configurations), plus the per-site product of name/reference spellings for ASTs with <= 2 named types; oracle: Schema::from_str(..).json() = SchemaMut::from_str(..).freeze().json(), no whitespace outside strings, and equal to the original as ordered JSON (own reader: same keys in the same order, numbers by value). (b) programmatic graphs via SchemaMut::from_nodes: every assignment of one option to each node of an n-node vector, options = int, string, array(k), map(k), union(k1!=k2), record(1 field k / 2 fields k1,k2) in each namespace, enum and fixed in each namespace (+ logical annotations date/uuid/decimal/duration/unknown on int, string, bytes, fixed, enum, array, record) with every in-range key, kept when all nodes are reachable, unions are spec-valid and fullnames unique; the Names of null-namespace types are constructed both as Name::from_fully_qualified_name(\"X\") and as (\".X\") for n <= 3 (each graph executed under both), mixed by node parity for larger n; levels: {}. Graphs whose cycles all pass through a named node: serde_json::to_string Ok, the text resolves (vmodel resolver, leading-dot references allowed) to exactly the unfolded graph, freeze Ok with the same text and fingerprint = CRC-64-AVRO(pcf(unfolded graph)), the crate's parser reads the text back to a bisimilar graph with the same fingerprint (graphs with an unconditional record cycle: reference resolver only). Graphs with a cycle through unnamed nodes only: serde_json::to_string and freeze() must both return Err (no crash). Every rendering / freeze of a graph that contains any cycle is first executed in a worker subprocess (one per unit; SIGSEGV/SIGABRT/SIGALRM attributed to the case in flight, horizon {HORIZON_S} s, worker restarted behind the case). (c) edited: the plain spelling of each valid AST with <= {edit_max_named} named types parsed, then through nodes_mut(): no change / each named node renamed to Q in each namespace and to Name::from_fully_qualified_name(\".Q\") / a field added to each record pointing at each node; judged like (b), cyclic ones screened in a worker first. (d) HIST: every history of <= {hist_depth} operations from {{b = a.clone(); a.clone_from(&b); b.clone_from(&a); and for a and b: canonical_form_rabin_fingerprint(), serde_json::to_string(), freeze() (consumes the object), 5 edits through nodes_mut()}} on 5 base schemas (parsed with extra attributes / built), explicit-state BFS with states rebuilt per history; invariant after every operation: serde_json::to_string and freeze().json() report what a fresh SchemaMut::from_nodes(current nodes) renders (a parsed, never edited object: the original document on freeze), and that rendering denotes the current nodes. Non-trivial: (a) documents with a reference, a namespace transition or extra attributes; (d) histories with an observation or clone, then an edit, then an observation; (b)/(c) graphs with a shared or cyclic named node or a namespace transition; distinct by text / node vector.",
+		"SAE. (a) parsed documents: C07's valid ASTs and forward-reference variants; spellings: 'every site takes option k' (k=0..3) under all 18 document-level configurations (attribute order x extra attributes incl. unknown keys with nested JSON x whitespace) for ASTs with <= 2 named types (larger ASTs: k=0..3 plain + k=1 under the 17 other configurations), plus the per-site product of name/reference spellings for ASTs with <= 2 named types; oracle: Schema::from_str(..).json() = SchemaMut::from_str(..).freeze().json(), no whitespace outside strings, and equal to the original as ordered JSON (own reader: same keys in the same order, numbers by value). (b) programmatic graphs via SchemaMut::from_nodes: every assignment of one option to each node of an n-node vector, options = int, string, array(k), map(k), union(k1!=k2), record(1 field k / 2 fields k1,k2) in each namespace, enum and fixed in each namespace (+ logical annotations date/uuid/decimal/duration/unknown on int, string, bytes, fixed, enum, array, record) with every in-range key, kept when all nodes are reachable, unions are spec-valid and fullnames unique; the Names of null-namespace types are constructed both as Name::from_fully_qualified_name(\"X\") and as (\".X\") for n <= 3 (each graph executed under both), mixed by node parity for larger n; levels: {}. Plus a sweep: one graph shape (record with a leaf field, an array, a map, a union field; and the bare root) x each primitive kind (null, boolean, int, long, float, double, bytes, string) at each leaf position and at all of them — bare, with every known logical type the specification allows on it (decimal, big-decimal, uuid, date, time-millis, time-micros, timestamp-millis, timestamp-micros) and with an unknown one; and graphs with a logical type on a union node (Err, or Ok with a document denoting the graph without that annotation; never a panic). Odd-numbered nodes are built through the public From conversions, and root() / get(key) / schema[key] / SchemaKey::root() / LogicalType::as_str() must agree with nodes(). Graphs whose cycles all pass through a named node: serde_json::to_string Ok, the text resolves (vmodel resolver, leading-dot references allowed) to exactly the unfolded graph, freeze Ok with the same text and fingerprint = CRC-64-AVRO(pcf(unfolded graph)), the crate's parser reads the text back to a bisimilar graph with the same fingerprint (graphs with an unconditional record cycle: reference resolver only). Graphs with a cycle through unnamed nodes only: serde_json::to_string and freeze() must both return Err (no crash). Every rendering / freeze of a graph that contains any cycle is first executed in a worker subprocess (one per unit; SIGSEGV/SIGABRT/SIGALRM attributed to the case in flight, horizon {HORIZON_S} s, worker restarted behind the case). (c) edited: the plain spelling of each valid AST with <= {edit_max_named} named types parsed, then through nodes_mut(): no change / each named node renamed to Q in each namespace and to Name::from_fully_qualified_name(\".Q\") / a field added to each record pointing at each node; judged like (b), cyclic ones screened in a worker first. (d) HIST: every history of <= {hist_depth} operations from {{b = a.clone(); a.clone_from(&b); b.clone_from(&a); and for a and b: canonical_form_rabin_fingerprint(), serde_json::to_string(), freeze() (consumes the object), 5 edits through nodes_mut()}} on 6 base schemas (parsed with extra attributes / built), explicit-state BFS with states rebuilt per history; invariant after every operation: serde_json::to_string and freeze().json() report what a fresh SchemaMut::from_nodes(current nodes) renders (a parsed, never edited object: the original document on freeze), and that rendering denotes the current nodes. Non-trivial: (a) documents with a reference, a namespace transition or extra attributes; (d) histories with an observation or clone, then an edit, then an observation; (b)/(c) graphs with a shared or cyclic named node or a namespace transition; distinct by text / node vector.",
 		lv.iter().map(|b| format!("{} (n={}, namespaces {:?}{})", b.label, b.n, b.namespaces, if b.canonical_only { ", one numbering per renumbering class" } else { ", all numberings" })).collect::<Vec<_>>().join("; "),
 	);
 	rep.assumptions.push("vmodel::schema::resolve_text implements the specification's name resolution (plus the crate's documented leading-dot spelling for null-namespace references)".into());
@@ -797,6 +856,15 @@ pub fn run(rep: &mut Report) {
 	let (hc, hv) = crate::shist::explore_histories("C09", if thorough { 5 } else { 4 }, crate::shist::Judge::Json);
 	rep.cover.merge(hc);
 	rep.violations.extend(hv);
+
+	// every primitive kind at every leaf position; unions with a logical type
+	{
+		let mut c = Cover::default();
+		let mut v = Vec::new();
+		run_sweeps(&mut c, &mut v);
+		rep.cover.merge(c);
+		rep.violations.extend(v);
+	}
 
 	// (b) first: a rendering that crashes on small graphs is found here, in isolation
 	for (li, b) in lv.iter().enumerate() {
@@ -859,6 +927,8 @@ pub fn run(rep: &mut Report) {
 		"named_cycle_graphs_screened_in_worker",
 		"histories_observe_edit_observe",
 		"graphs_with_dot_constructed_null_namespace_names",
+		"primitive_sweep_graphs",
+		"union_with_logical_type_graphs",
 	] {
 		if c(k) == 0 {
 			missing.push(k);
@@ -873,6 +943,18 @@ pub fn replay(v: &serde_json::Value) -> i32 {
 	let r = &v["replay"];
 	let mut cover = Cover::default();
 	let mut out = Vec::new();
+	if r["kind"] == "union-logical" {
+		let g = ggen::from_json(&r["graph"]).unwrap_or_else(|| machinery("replay: bad graph".into()));
+		println!("graph: {}", ggen::describe(&g));
+		let sm = SchemaMut::from_nodes(ggen::to_crate(&g));
+		println!("serde_json::to_string: {:?}", guarded(|| serde_json::to_string(&sm).map_err(|e| e.to_string())));
+		println!("freeze: {:?}", guarded(|| sm.clone().freeze().map(|s| s.json().to_owned()).map_err(|e| e.to_string())));
+		judge_union_logical(&g, &mut cover, &mut out);
+		for v in &out {
+			println!("  [{}] {}", v.class, v.what);
+		}
+		return if out.is_empty() { 0 } else { 1 };
+	}
 	if r["kind"] == "history" {
 		return crate::shist::replay_history(r, crate::shist::Judge::Json);
 	}
